@@ -2,7 +2,7 @@
    Only statements; each closed by `exact` of a lemma proved in Sym/IdsProofs.v.  The left-hand functions are the model of
    IdGenerator.py / Metadata.py / symbol.Network.Address instantiated with the constants regenerated from /repo (Gen/IdsOps.v)
    and with the Gallina SHA3-256; the right-hand specifications are fixed text. *)
-From Symv Require Import Base.Bytes Base.PyOps Sym.Keccak Sym.KeccakProofs Sym.Ids Sym.IdsProofs.
+From Symv Require Import Base.Bytes Base.PyOps Sym.Keccak Sym.KeccakProofs Sym.Ids Sym.IdsProofs Sym.IdsProofs2.
 Open Scope Z_scope.
 
 Theorem mosaic_id_def : forall addr nonce,
@@ -66,6 +66,66 @@ Theorem non_alias_address_has_no_id : forall addr, Z.land (nth 0 addr 0) 1 = 0 -
 Proof. exact IdsProofs.non_alias_address. Qed.
 Print Assumptions non_alias_address_has_no_id.
 
+(* level by level, as an equation: appending a level appends the id of that name under the last id so far (the root parent when
+   there is none); and a path of parts ps ++ qs is the path of ps followed by the path of qs under the last id of ps *)
+Theorem path_level_by_level : forall parent parts name,
+  path_spec sha3_256 parent (parts ++ [name]) =
+  path_spec sha3_256 parent parts ++ [namespace_id_spec sha3_256 name (last (path_spec sha3_256 parent parts) parent)].
+Proof. exact (IdsProofs2.path_spec_snoc sha3_256). Qed.
+Print Assumptions path_level_by_level.
+
+Theorem path_composes : forall parent ps qs,
+  path_spec sha3_256 parent (ps ++ qs) =
+  path_spec sha3_256 parent ps ++ path_spec sha3_256 (last (path_spec sha3_256 parent ps) parent) qs.
+Proof. exact (IdsProofs2.path_spec_app sha3_256). Qed.
+Print Assumptions path_composes.
+
+Theorem path_has_one_id_per_part : forall fqn p,
+  generate_namespace_path sha3_256 fqn = Some p -> length p = length (split_on 46 fqn) /\ Forall (fun id => 2 ^ 63 <= id < 2 ^ 64) p.
+Proof. exact (IdsProofs2.namespace_path_shape sha3_256 sha3_256_wf). Qed.
+Print Assumptions path_has_one_id_per_part.
+
+(* the alias id of a mosaic is the last id of its namespace path, defined exactly when the path is, and always a namespace id *)
+Theorem mosaic_alias_id_is_last_level : forall fqn,
+  generate_mosaic_alias_id sha3_256 fqn =
+  if forallb valid_name_spec (split_on 46 fqn) then Some (last (path_spec sha3_256 0 (split_on 46 fqn)) 0) else None.
+Proof. exact (IdsProofs2.mosaic_alias_id_def sha3_256 sha3_256_wf). Qed.
+Print Assumptions mosaic_alias_id_is_last_level.
+
+Theorem mosaic_alias_id_is_namespace_id : forall fqn id, generate_mosaic_alias_id sha3_256 fqn = Some id -> 2 ^ 63 <= id < 2 ^ 64.
+Proof. exact (IdsProofs2.mosaic_alias_id_range sha3_256 sha3_256_wf). Qed.
+Print Assumptions mosaic_alias_id_is_namespace_id.
+
+(* the flag bit separates the two identifier spaces: no mosaic id is a namespace id *)
+Theorem mosaic_and_namespace_ids_disjoint : forall addr nonce name parent,
+  generate_mosaic_id sha3_256 addr nonce <> generate_namespace_id sha3_256 name parent.
+Proof. exact (IdsProofs.mosaic_namespace_disjoint sha3_256 sha3_256_wf). Qed.
+Print Assumptions mosaic_and_namespace_ids_disjoint.
+
+(* the exact shape of the update payload: its length, every byte of the overlap, every byte beyond it; and the self-update *)
+Theorem xor_update_length : forall old_value new_value,
+  length (metadata_update_value old_value new_value) =
+  match old_value with [] => length new_value | _ => Nat.max (length old_value) (length new_value) end.
+Proof. exact IdsProofs2.update_value_length. Qed.
+Print Assumptions xor_update_length.
+
+Theorem xor_update_overlap : forall old_value new_value i,
+  old_value <> [] -> (i < Nat.min (length old_value) (length new_value))%nat ->
+  nth i (metadata_update_value old_value new_value) 0 = Z.lxor (nth i old_value 0) (nth i new_value 0).
+Proof. exact IdsProofs2.update_value_overlap. Qed.
+Print Assumptions xor_update_overlap.
+
+Theorem xor_update_tail : forall old_value new_value i,
+  old_value <> [] -> (Nat.min (length old_value) (length new_value) <= i)%nat ->
+  nth i (metadata_update_value old_value new_value) 0 =
+  if (length new_value <? length old_value)%nat then nth i old_value 0 else nth i new_value 0.
+Proof. exact IdsProofs2.update_value_tail. Qed.
+Print Assumptions xor_update_tail.
+
+Theorem xor_update_self : forall v, metadata_update_value v v = repeat 0 (length v).
+Proof. exact IdsProofs2.update_value_self. Qed.
+Print Assumptions xor_update_self.
+
 (* non-vacuity *)
 Example path_example :
   generate_namespace_path sha3_256 [102; 111; 111; 46; 98; 97; 114] <> None
@@ -82,3 +142,10 @@ Example premises_nonvacuous :
   /\ (Z.land (nth 0 (104 :: repeat 7 23) 0) 1 = 0 /\ address_to_namespace_id (104 :: repeat 7 23) = None).
 Proof. vm_compute. repeat split; try reflexivity; discriminate. Qed.
 Print Assumptions premises_nonvacuous.
+
+Example premises_nonvacuous_2 :
+  generate_mosaic_alias_id sha3_256 [102; 111; 111; 46; 98] <> None
+  /\ ([1; 2; 3] <> ([] : list Z) /\ (1 < Nat.min 3 2)%nat /\ (Nat.min 3 2 <= 2)%nat
+      /\ metadata_update_value [1; 2; 3] [7; 7] = [6; 5; 3]).
+Proof. vm_compute. repeat split; try discriminate; repeat constructor. Qed.
+Print Assumptions premises_nonvacuous_2.
